@@ -5,7 +5,11 @@ package layer
 // C04 — untrusted layer bytes cause errors, never a crash or a hang.
 // TestVerifC04 generates hostile inputs and runs them in crash-isolated child processes
 // (TestVerifC04Child); see internal/verifc04 for the executor, the generators and the walkers.
-// This file adds the targets that need package layer (the FUSE node walk) and wires everything.
+// This file adds the target that goes through this package: the blob is served by an in-memory
+// registry, resolved with the exported Resolver (as the snapshotter does), verified, prefetched, and
+// its FUSE node tree is walked in-process.  Only exported identifiers of the package and the
+// go-fuse node interfaces are used, so that a refactoring of the package's internals cannot break
+// the harness.
 
 import (
 	"context"
@@ -14,59 +18,65 @@ import (
 	"sort"
 	"syscall"
 	"testing"
+	"time"
 
-	"github.com/containerd/stargz-snapshotter/cache"
-	"github.com/containerd/stargz-snapshotter/fs/reader"
+	"github.com/containerd/containerd/v2/pkg/reference"
+	"github.com/containerd/stargz-snapshotter/estargz/externaltoc"
+	"github.com/containerd/stargz-snapshotter/fs/config"
+	"github.com/containerd/stargz-snapshotter/fs/source"
 	"github.com/containerd/stargz-snapshotter/internal/verifc04"
+	"github.com/containerd/stargz-snapshotter/internal/verifreg"
 	"github.com/containerd/stargz-snapshotter/internal/verifutil"
 	"github.com/containerd/stargz-snapshotter/metadata"
+	"github.com/containerd/stargz-snapshotter/metadata/memory"
+	"github.com/containerd/stargz-snapshotter/task"
 	fusefs "github.com/hanwen/go-fuse/v2/fs"
 	"github.com/hanwen/go-fuse/v2/fuse"
 	digest "github.com/opencontainers/go-digest"
+	ocispec "github.com/opencontainers/image-spec/specs-go/v1"
 )
 
-// verifC04Nodes walks the FUSE node tree of a layer in-process: Readdir + Lookup on every
-// directory, Getattr/Getxattr/Listxattr/Readlink on every node, Open + page-sized Read on files.
-func verifC04Nodes(mr metadata.Reader, rec *verifc04.Rec) error {
-	vr, err := reader.NewReader(mr, cache.NewMemoryCache(), digest.FromString("layer"))
-	if err != nil {
-		return err
-	}
-	var rr reader.Reader
-	if r2, err := vr.VerifyTOC(mr.TOCDigest()); err == nil {
-		rr = r2
-	} else {
-		rr = vr.SkipVerify()
-	}
-	rootE, err := newNode(digest.FromString("layer"), rr, &testBlobState{10, 5}, 100, OverlayOpaqueAll, passThroughConfig{}, false)
-	if err != nil {
-		return err
-	}
-	fusefs.NewNodeFS(rootE, &fusefs.Options{}) // initializes the root inode
-	root := rootE.(*node)
+// verifC04Walk walks the FUSE node tree below root through the go-fuse node interfaces: Readdir +
+// Lookup on every directory, Getattr/Getxattr/Listxattr/Readlink/Statfs on every node, Open +
+// page-sized Read on regular files.
+func verifC04Walk(root fusefs.InodeEmbedder, rec *verifc04.Rec) error {
 	ctx := context.Background()
 	budget := 30000
-	onPath := map[uint32]bool{}
+	onPath := map[uint64]bool{}
 	var lastErr error
-	// scratch structures live on the heap and the walk uses an explicit stack: the harness itself
-	// must not be the one that overflows on a deep tree
 	ao, eo, so := new(fuse.AttrOut), new(fuse.EntryOut), new(fuse.StatfsOut)
 	type frame struct {
-		n     *node
+		n     fusefs.InodeEmbedder
+		ino   uint64
 		p     string
 		names []string
 		i     int
 	}
-	enter := func(n *node, p string) *frame {
-		onPath[n.id] = true
-		fr := &frame{n: n, p: p}
-		n.Getattr(ctx, nil, ao)
-		n.Listxattr(ctx, make([]byte, 1))
-		n.Listxattr(ctx, make([]byte, 4096))
-		n.Getxattr(ctx, "trusted.overlay.opaque", make([]byte, 1))
-		n.Getxattr(ctx, "user.k", make([]byte, 0))
-		n.Statfs(ctx, so)
-		ds, errno := n.Readdir(ctx)
+	probe := func(n fusefs.InodeEmbedder) {
+		if g, ok := n.(fusefs.NodeGetattrer); ok {
+			g.Getattr(ctx, nil, ao)
+		}
+		if l, ok := n.(fusefs.NodeListxattrer); ok {
+			l.Listxattr(ctx, make([]byte, 1))
+			l.Listxattr(ctx, make([]byte, 4096))
+		}
+		if g, ok := n.(fusefs.NodeGetxattrer); ok {
+			g.Getxattr(ctx, "trusted.overlay.opaque", make([]byte, 1))
+			g.Getxattr(ctx, "user.k", make([]byte, 0))
+		}
+		if s, ok := n.(fusefs.NodeStatfser); ok {
+			s.Statfs(ctx, so)
+		}
+	}
+	enter := func(n fusefs.InodeEmbedder, ino uint64, p string) *frame {
+		onPath[ino] = true
+		fr := &frame{n: n, ino: ino, p: p}
+		probe(n)
+		rd, ok := n.(fusefs.NodeReaddirer)
+		if !ok {
+			return fr
+		}
+		ds, errno := rd.Readdir(ctx)
 		if errno != 0 {
 			lastErr = errno
 			return fr
@@ -81,14 +91,14 @@ func verifC04Nodes(mr metadata.Reader, rec *verifc04.Rec) error {
 			}
 		}
 		sort.Strings(fr.names)
-		fr.names = append(fr.names, "no-such-entry", ".wh.x", verifC04LandmarkProbe)
+		fr.names = append(fr.names, "no-such-entry", ".wh.x", ".prefetch.landmark")
 		return fr
 	}
-	stack := []*frame{enter(root, "")}
+	stack := []*frame{enter(root, 1, "")}
 	for len(stack) > 0 {
 		fr := stack[len(stack)-1]
 		if fr.i >= len(fr.names) || budget <= 0 {
-			delete(onPath, fr.n.id)
+			delete(onPath, fr.ino)
 			stack = stack[:len(stack)-1]
 			continue
 		}
@@ -96,47 +106,56 @@ func verifC04Nodes(mr metadata.Reader, rec *verifc04.Rec) error {
 		fr.i++
 		budget--
 		rec.Beat()
-		in, errno := fr.n.Lookup(ctx, name, eo)
+		lk, ok := fr.n.(fusefs.NodeLookuper)
+		if !ok {
+			continue
+		}
+		*eo = fuse.EntryOut{}
+		in, errno := lk.Lookup(ctx, name, eo)
 		if errno != 0 || in == nil {
 			continue
 		}
-		switch c := in.Operations().(type) {
-		case *node:
-			mode := c.attr.Mode
-			c.Getattr(ctx, nil, ao)
-			c.Listxattr(ctx, make([]byte, 4096))
-			switch {
-			case mode.IsDir():
-				cp := fr.p
-				if len(fr.p) < 2048 {
-					cp = fr.p + "/" + name
-				}
-				if onPath[c.id] {
-					rec.Fail("cyclic-tree:node", fmt.Sprintf("directory node %d is its own descendant at %q", c.id, cp))
-					continue
-				}
-				stack = append(stack, enter(c, cp))
-			case mode.IsRegular():
-				fh, _, errno := c.Open(ctx, 0)
-				if errno != 0 {
-					lastErr = errno
-					continue
-				}
-				f := fh.(*file)
+		c := in.Operations()
+		ino := in.StableAttr().Ino
+		probe(c)
+		switch in.StableAttr().Mode & syscall.S_IFMT {
+		case syscall.S_IFDIR:
+			cp := fr.p
+			if len(fr.p) < 2048 {
+				cp = fr.p + "/" + name
+			}
+			if onPath[ino] {
+				rec.Fail("cyclic-tree:node", fmt.Sprintf("directory inode %d is its own descendant at %q", ino, cp))
+				continue
+			}
+			stack = append(stack, enter(c, ino, cp))
+		case syscall.S_IFREG:
+			op, ok := c.(fusefs.NodeOpener)
+			if !ok {
+				continue
+			}
+			fh, _, errno := op.Open(ctx, 0)
+			if errno != 0 {
+				lastErr = errno
+				continue
+			}
+			if fr, ok := fh.(fusefs.FileReader); ok {
 				for _, lo := range [][2]int64{{4096, 0}, {131072, 0}, {1, 0}, {16, 3}, {4096, 4096}} {
-					if _, errno := f.Read(ctx, make([]byte, lo[0]), lo[1]); errno != 0 {
+					if _, errno := fr.Read(ctx, make([]byte, lo[0]), lo[1]); errno != 0 {
 						lastErr = errno
 					}
 				}
-				f.Getattr(ctx, ao)
-				f.Release(ctx)
-			case mode&os.ModeSymlink != 0:
-				c.Readlink(ctx)
 			}
-		case *whiteout:
-			c.Getattr(ctx, nil, ao)
-		case *state:
-			c.Readdir(ctx)
+			if g, ok := fh.(fusefs.FileGetattrer); ok {
+				g.Getattr(ctx, ao)
+			}
+			if r, ok := fh.(fusefs.FileReleaser); ok {
+				r.Release(ctx)
+			}
+		case syscall.S_IFLNK:
+			if r, ok := c.(fusefs.NodeReadlinker); ok {
+				r.Readlink(ctx)
+			}
 		}
 	}
 	if lastErr == syscall.Errno(0) {
@@ -145,7 +164,78 @@ func verifC04Nodes(mr metadata.Reader, rec *verifc04.Rec) error {
 	return lastErr
 }
 
-const verifC04LandmarkProbe = ".prefetch.landmark"
+// verifC04Layer serves the blob from an in-memory registry and takes it through the exported life
+// cycle of a layer: Resolve, Verify (or SkipVerify), Prefetch, RootNode + node walk, ReadAt, Close.
+func verifC04Layer(in *verifc04.Input, rec *verifc04.Rec) {
+	if len(in.Data) == 0 {
+		return
+	}
+	dir, err := os.MkdirTemp("", "verifc04l")
+	if err != nil {
+		rec.Fail("harness-tempdir", err.Error())
+		return
+	}
+	defer os.RemoveAll(dir)
+	reg := verifreg.New()
+	dg := digest.FromBytes(in.Data)
+	reg.AddBlob(dg.String(), in.Data)
+	ext := in.ExtTOC
+	decs := func(context.Context, source.RegistryHosts, reference.Spec, ocispec.Descriptor) []metadata.Decompressor {
+		return []metadata.Decompressor{externaltoc.NewGzipDecompressor(func() ([]byte, error) {
+			if ext == nil {
+				return nil, fmt.Errorf("no external TOC")
+			}
+			return ext, nil
+		})}
+	}
+	cfg := config.Config{HTTPCacheType: "memory", FSCacheType: "memory", PrefetchTimeoutSec: 5,
+		BlobConfig: config.BlobConfig{ChunkSize: 64, ValidInterval: 3600, FetchTimeoutSec: 5, MaxRetries: 1, MinWaitMSec: 1, MaxWaitMSec: 2}}
+	r, err := NewResolver(dir, task.NewBackgroundTaskManager(2, time.Millisecond), cfg, nil, memory.NewReader, OverlayOpaqueAll, decs)
+	if err != nil {
+		rec.Fail("harness-resolver", err.Error())
+		return
+	}
+	refspec, err := reference.Parse(reg.RegHost + "/img/test:latest")
+	if err != nil {
+		rec.Fail("harness-refspec", err.Error())
+		return
+	}
+	var l Layer
+	cl := rec.Try("layer.resolve", func() (err error) {
+		l, err = r.Resolve(context.Background(), reg.Hosts(nil), refspec, ocispec.Descriptor{Digest: dg, Size: int64(len(in.Data))})
+		return err
+	})
+	if cl != "ok" {
+		return
+	}
+	if toc := l.Info().TOCDigest; toc != "" && l.Verify(toc) == nil {
+		// verified mode
+	} else {
+		l.SkipVerify()
+	}
+	rec.Try("layer.prefetch", func() error {
+		if err := l.Prefetch(int64(len(in.Data))); err != nil {
+			return err
+		}
+		return l.WaitForPrefetchCompletion()
+	})
+	rec.Settle()
+	rec.Try("node.walk", func() error {
+		root, err := l.RootNode(100)
+		if err != nil {
+			return err
+		}
+		fusefs.NewNodeFS(root, &fusefs.Options{}) // initializes the root inode
+		return verifC04Walk(root, rec)
+	})
+	rec.Try("layer.read", func() error {
+		_, err := l.ReadAt(make([]byte, 64), 0)
+		l.Info()
+		l.Check()
+		return err
+	})
+	rec.Try("layer.close", func() error { return l.Close() })
+}
 
 var verifC04Bases []*verifc04.Base
 
@@ -161,8 +251,8 @@ func verifC04Run(in *verifc04.Input, rec *verifc04.Rec) {
 			dir, _ := os.MkdirTemp("", "verifc04p")
 			verifc04.ExerciseReader("mem", mr, regs, rec, dir)
 			os.RemoveAll(dir)
-			rec.Try("node.walk", func() error { return verifC04Nodes(mr, rec) })
 		}
+		verifC04Layer(in, rec)
 		verifc04.TargetUnpack(in, rec)
 	case "tar":
 		verifc04.TargetBuild(in, rec)
